@@ -4,8 +4,8 @@
 //@ def all FMAX=40
 //@ cbmc all --unwind 9 --unwinding-assertions
 //@ entry h_dt_compare_dur
-//@ note B: bounded stand-in -- duration fields 0..FMAX (=40) per component, common sign, as parseDuration() leaves them (sign in fValue[utc]: UTC_STD for positive, UTC_NEG for negative durations; all fields of a negative duration <= 0; fTimeZone = 0; fHasTime never set; fraction in fMilliSecond). With these bounds the day-carry loop of normalize() runs at most 3 times, so --unwind 9 with unwinding assertions is complete for the stated ranges; it is a stand-in because the ranges are small.
-//@ note obligation: XMLDateTime::compare(d1, d2, strict) starts with `if (compareOrder(d1, d2) == EQUAL) return EQUAL;`. Per XML Schema Part 2 3.2.6.2 two durations are equal only if they add the same to every reference dateTime, i.e. they have the same number of months and the same number of seconds (fraction included). EXPECTED TO FAIL on the unchanged tree (two findings): (1) compareOrder() normalises its copies and normalize() takes the UTC_NEG sign marker of a negative duration for a '-hh:mm' zone: days are carried into months, -P1M and -P30D get the same field vector; (2) parseDuration() never sets fHasTime, so compareOrder() ignores fMilliSecond: PT0.1S and PT0.2S compare EQUAL. Native reproductions: /verif/findings/dur_negative_equal, /verif/findings/dur_fraction_ignored.
+//@ note B: bounded stand-in -- duration fields 0..FMAX (=40) per component, common sign, as parseDuration() leaves them (sign in fValue[utc]: UTC_STD for positive, UTC_NEG for negative durations; all fields of a negative duration <= 0; fTimeZone = 0; fraction in fMilliSecond with the representation invariant fMilliSecond != 0 ==> fHasTime, established by parseDuration / parseDateTime / parseTime). With these bounds the day-carry loop of normalize() runs at most 3 times, so --unwind 9 with unwinding assertions is complete for the stated ranges; it is a stand-in because the ranges are small.
+//@ note obligation: XMLDateTime::compare(d1, d2, strict) starts with `if (compareOrder(d1, d2) == EQUAL) return EQUAL;`. Per XML Schema Part 2 3.2.6.2 two durations are equal only if they add the same to every reference dateTime, i.e. they have the same number of months and the same number of seconds (fraction included). EXPECTED TO FAIL on the current tree (known finding): compareOrder() normalises its copies and normalize() takes the UTC_NEG sign marker of a negative duration for a '-hh:mm' zone: days are carried into months, -P1M and -P30D get the same field vector (native reproduction /verif/findings/dur_negative_equal). The second obligation (fractions) failed before the repo fix "fractions of a second were ignored when comparing durations" (native reproduction /verif/findings/dur_fraction_ignored) and holds now.
 //@ note div() is modelled per ISO C99 7.20.6.2 (spec/gregorian.h)
 #define VERIF_DEFINE_GHOSTS
 #define SPEC_NEED_DIV_MODEL
@@ -65,7 +65,7 @@ struct XMLDateTime A, B;
 /* a duration as parseDuration() stores it: magnitudes with a common sign */
 #define DURATION(X, neg) (IN((X).fValue[CentYear], neg) && IN((X).fValue[Month], neg) && IN((X).fValue[Day], neg) && IN((X).fValue[Hour], neg) && \
    IN((X).fValue[Minute], neg) && IN((X).fValue[Second], neg) && \
-   (X).fValue[MiliSecond] == 0 && (X).fValue[utc] == ((neg) ? UTC_NEG : UTC_STD) && (X).fTimeZone[hh] == 0 && (X).fTimeZone[mm] == 0 && !(X).fHasTime)
+   (X).fValue[MiliSecond] == 0 && (X).fValue[utc] == ((neg) ? UTC_NEG : UTC_STD) && (X).fTimeZone[hh] == 0 && (X).fTimeZone[mm] == 0)
 #define MONTHS(X) (12 * (long)(X).fValue[CentYear] + (X).fValue[Month])
 #define SECONDS(X) ((((long)(X).fValue[Day] * 24 + (X).fValue[Hour]) * 60 + (X).fValue[Minute]) * 60 + (X).fValue[Second])
 
@@ -77,6 +77,9 @@ void h_dt_compare_dur(void)
   VERIF_ASSUME(DURATION(A, na) && DURATION(B, nb) && fa <= 9 && fb <= 9);
   A.fMilliSecond = (na ? -1 : 1) * ((double)fa / 10);
   B.fMilliSecond = (nb ? -1 : 1) * ((double)fb / 10);
+  /* representation invariant fMilliSecond != 0 ==> fHasTime: parseDuration() sets fHasTime exactly when it stores a
+     seconds fraction ("PT1.0S" stores a zero fraction with fHasTime set: both states allowed for a zero fraction) */
+  VERIF_ASSUME((fa == 0 || A.fHasTime) && (fb == 0 || B.fHasTime));
   long ma = MONTHS(A), mb = MONTHS(B), sa = SECONDS(A), sb = SECONDS(B);
   verif_thrown = 0;
   int r = XMLDateTime_compareOrder(&A, &B);
